@@ -35,11 +35,6 @@ theorem depth_constraint_holds (vm vm' : Vm) (op : Op) (hl : 16 ≤ vm.stack.len
     cases h
     exact stepCore_depth (r := r) hl hr
 
-/-- Trace length: the least power of two that holds the executed cycles, the range-checker table,
-    the chiplet rows and one random row; no capacity hint enters the formula. -/
-def traceLen (clk rangeRows chipletRows : Nat) : Nat :=
-  nextPow2Nat (max (max rangeRows clk) chipletRows + 1)
-
 theorem nextPow2Nat_spec (n : Nat) (hn : 1 ≤ n) :
     n ≤ nextPow2Nat n ∧ ∃ k, nextPow2Nat n = 2 ^ k := by
   unfold nextPow2Nat
@@ -52,12 +47,40 @@ theorem nextPow2Nat_spec (n : Nat) (hn : 1 ≤ n) :
     have hlt : n - 1 < 2 ^ (Nat.log2 (n - 1) + 1) := Nat.lt_log2_self
     omega
 
+/-- The trace length rule of `finalize_trace` (`Model.traceLen`, compared with the length of every
+    real trace by the harness): a power of two, at least 64, with room for the HALT row after the
+    executed cycles, the padding row after the chiplets and the random last row — and the *least*
+    such power of two, so that no component is padded more than necessary. -/
 theorem trace_len_ok (clk r c : Nat) :
-    clk + 1 ≤ traceLen clk r c ∧ r + 1 ≤ traceLen clk r c ∧ c + 1 ≤ traceLen clk r c ∧
-    ∃ k, traceLen clk r c = 2 ^ k := by
-  unfold traceLen
-  obtain ⟨h1, h2⟩ := nextPow2Nat_spec (max (max r clk) c + 1) (by omega)
-  refine ⟨by omega, by omega, by omega, h2⟩
+    clk + 2 ≤ traceLen clk r c ∧ r + 1 ≤ traceLen clk r c ∧ c + 2 ≤ traceLen clk r c ∧
+    64 ≤ traceLen clk r c ∧ ∃ k, traceLen clk r c = 2 ^ k := by
+  unfold traceLen MIN_TRACE_LEN
+  obtain ⟨h1, k, h2⟩ := nextPow2Nat_spec (max (max r (clk + 1)) (c + 1) + 1) (by omega)
+  refine ⟨by omega, by omega, by omega, by omega, ?_⟩
+  by_cases h : 64 ≤ nextPow2Nat (max (max r (clk + 1)) (c + 1) + 1)
+  · exact ⟨k, by omega⟩
+  · exact ⟨6, by omega⟩
+
+theorem nextPow2Nat_least (n m : Nat) (hn : 2 ≤ n) (hm : n ≤ 2 ^ m) : nextPow2Nat n ≤ 2 ^ m := by
+  unfold nextPow2Nat
+  have h1 : ¬ n ≤ 1 := by omega
+  simp only [h1, if_false]
+  have hlog : Nat.log2 (n - 1) < m := by
+    have hne : n - 1 ≠ 0 := by omega
+    rw [Nat.log2_lt hne]
+    omega
+  exact Nat.pow_le_pow_right (by omega) (by omega)
+
+/-- Minimality: any power of two that is at least 64 and has room for all components is at least
+    the trace length — the trace is never longer than the rule requires. -/
+theorem trace_len_least (clk r c m : Nat) (h64 : 64 ≤ 2 ^ m) (hc : clk + 2 ≤ 2 ^ m)
+    (hr : r + 1 ≤ 2 ^ m) (hch : c + 2 ≤ 2 ^ m) : traceLen clk r c ≤ 2 ^ m := by
+  unfold traceLen MIN_TRACE_LEN
+  have := nextPow2Nat_least (max (max r (clk + 1)) (c + 1) + 1) m (by omega) (by omega)
+  omega
+
+example : traceLen 63 10 8 = 128 ∧ traceLen 62 10 8 = 64 ∧ traceLen 20 30 62 = 64 ∧ traceLen 20 30 63 = 128
+    ∧ traceLen 20 63 8 = 64 ∧ traceLen 20 64 8 = 128 := by decide
 
 -- Non-vacuity / sanity of the shift classification against concrete operations.
 example : isLeft Op.add = true ∧ isRight Op.pad = true ∧ isLeft Op.swap = false ∧ isRight Op.swap = false
